@@ -5,6 +5,7 @@ import (
 	"fmt"
 	"math"
 	"reflect"
+	"strings"
 
 	"github.com/bytedance/sonic/encoder"
 	"github.com/bytedance/sonic/verifhook"
@@ -21,6 +22,7 @@ type C12Case struct {
 	Mask        uint64 `json:"mask"`
 	Unsupported int    `json:"unsupported,omitempty"`
 	Unrep       int    `json:"unrep,omitempty"`
+	Cross       bool   `json:"cross,omitempty"` // also ask a worker process started with SONIC_ENCODER_USE_VM=1
 }
 
 func init() { register("C12", func() Case { return &C12Case{} }) }
@@ -40,6 +42,7 @@ func drawC12(t *rapid.T) Case {
 		// order: force sorted keys so that the byte comparison is meaningful
 		c.Mask |= optSortMapKeys
 	}
+	c.Cross = rapid.IntRange(0, 9).Draw(t, "cross") == 0
 	switch rapid.IntRange(0, 11).Draw(t, "extra") {
 	case 0:
 		c.Unsupported = rapid.IntRange(1, 8).Draw(t, "unsupkind")
@@ -48,6 +51,8 @@ func drawC12(t *rapid.T) Case {
 	}
 	return c
 }
+
+var c12WorkerChecked bool
 
 func (c *C12Case) Run() (res stat.Result) {
 	defer verifhook.SetEncoderVM(false)
@@ -135,6 +140,54 @@ func (c *C12Case) Run() (res stat.Result) {
 			if ch == '"' || ch >= '0' && ch <= '9' {
 				numOrStr = true
 			}
+		}
+	}
+	if c.Cross && c.Unsupported == 0 && c.Unrep == 0 {
+		// the hook must select exactly what the environment variable selects: compare the in-process
+		// VM transcript with the transcript of a worker started with SONIC_ENCODER_USE_VM=1
+		w, err := getWorker("SONIC_ENCODER_USE_VM=1")
+		if err != nil {
+			panic("harness: cannot start worker: " + err.Error())
+		}
+		if !c12WorkerChecked {
+			info, _ := w.ask("INFO", &InfoCase{})
+			if !strings.Contains(info, "vm=true") {
+				panic("harness: SONIC_ENCODER_USE_VM did not select the VM: " + info)
+			}
+			c12WorkerChecked = true
+		}
+		verifhook.SetEncoderVM(true)
+		local := wireForm(c.Transcript())
+		verifhook.SetEncoderVM(false)
+		jitLocal := wireForm(c.Transcript())
+		remote, err := w.ask("C12", c)
+		res.Sub++
+		res.Classes = append(res.Classes, "cross-process")
+		if err != nil {
+			res.Err = fmt.Errorf("VM worker: %v", err)
+			return
+		}
+		if remote != local || remote != jitLocal {
+			k := 0
+			for k < len(remote) && k < len(local) && remote[k] == local[k] {
+				k++
+			}
+			if k == len(remote) && k == len(local) {
+				for k = 0; k < len(remote) && k < len(jitLocal) && remote[k] == jitLocal[k]; k++ {
+				}
+			}
+			lo := k - 40
+			if lo < 0 {
+				lo = 0
+			}
+			cut := func(x string) string {
+				if lo < len(x) {
+					return clipS(x[lo:])
+				}
+				return ""
+			}
+			res.Err = fmt.Errorf("transcripts differ at offset %d: worker with SONIC_ENCODER_USE_VM=1: ...%s; in-process VM: ...%s; in-process JIT: ...%s", k, cut(remote), cut(local), cut(jitLocal))
+			return
 		}
 	}
 	var f typeFeatures
